@@ -681,12 +681,11 @@ class CalculationService(BaseSubscriber):
         """Subscribe affector spec with python modifier."""
         to_subscribe = set()
         for msg_type in affector_spec.modifier.revise_msg_types:
-            # Subscribe service to new message type only if there's no such
-            # subscription yet
-            if (
-                msg_type not in self._handler_map and
-                msg_type not in self.__subscribed_affectors
-            ):
+            # Subscriptions are per fit, while affector specs of all fits of
+            # the solar system share the subscriber map: subscribe service on
+            # this very fit (subscribing twice is harmless), unless message
+            # type is routed to the service on every fit anyway
+            if msg_type not in self._handler_map:
                 to_subscribe.add(msg_type)
             # Add affector spec to subscriber map to let it receive messages
             self.__subscribed_affectors.add_data_entry(msg_type, affector_spec)
@@ -699,11 +698,13 @@ class CalculationService(BaseSubscriber):
         for msg_type in affector_spec.modifier.revise_msg_types:
             # Make sure affector spec will not receive messages anymore
             self.__subscribed_affectors.rm_data_entry(msg_type, affector_spec)
-            # Unsubscribe service from message type if there're no recipients
-            # anymore
-            if (
-                msg_type not in self._handler_map and
-                msg_type not in self.__subscribed_affectors
+            # Unsubscribe service on this fit from message type if none of
+            # the fit's items needs it anymore
+            if msg_type in self._handler_map:
+                continue
+            if not any(
+                spec.item._fit is fit
+                for spec in self.__subscribed_affectors.get(msg_type, ())
             ):
                 to_ubsubscribe.add(msg_type)
         if to_ubsubscribe:
